@@ -756,7 +756,7 @@ func (x *Exec) planHavoc(st *State, cells map[*Cell]bool, body func(st *State)) 
 	for round := 0; round < 6; round++ {
 		ds := st.clone()
 		syms := map[*Term]bool{}
-		for c := range cells {
+		for _, c := range sortedCells(cells) {
 			if v, ok := ds.cells[c]; ok {
 				if tm, ok := v.(*Term); ok {
 					f := fresh("dry."+c.Name, tm.Sort)
@@ -852,8 +852,17 @@ func (x *Exec) planHavoc(st *State, cells map[*Cell]bool, body func(st *State)) 
 	return plan
 }
 
+func sortedCells(m map[*Cell]bool) []*Cell {
+	var out []*Cell
+	for c := range m {
+		out = append(out, c)
+	}
+	sort.Slice(out, func(i, j int) bool { return out[i].ID < out[j].ID })
+	return out
+}
+
 func (x *Exec) applyHavoc(st *State, plan *havocPlan, tag string) {
-	for c := range plan.cells {
+	for _, c := range sortedCells(plan.cells) {
 		v, ok := st.cells[c]
 		if !ok {
 			continue
